@@ -929,6 +929,15 @@ def r4(report, db, P):
             report.violation(R, 'write:buffers', wr.path, wr.node,
                              wr.qualname, 'id, fields and framing do not '
                              'use the same buffer: %s' % sorted(bufs))
+    elif kinds == ['id', 'fields'] and ast.unparse(
+            order[0][1].args[1]) == ast.unparse(order[1][1].args[0]):
+        # the framing is spelt some other way (a context manager that emits
+        # on exit, a pure framing function and explicit sends): that the
+        # buffer with id and fields is what gets framed is C01's frame
+        # algebra; here only the order of id and fields is decided
+        report.ok(R, 'VarInt(self.id) then write_fields on one buffer %s '
+                  '(framing not spelt as _write_buffer: see C01)'
+                  % ast.unparse(order[0][1].args[1]))
     else:
         report.violation(R, 'write:order', wr.path, wr.node, wr.qualname,
                          'Packet.write does not send VarInt(self.id), then '
